@@ -143,7 +143,7 @@ Proof. vm_compute. reflexivity. Qed.
 (* which operators admit which numeric operand types *)
 Definition admits (o : binop) (l r : ty) : bool :=
   match o with
-  | Add | Sub | Mul | Div | Lt | Gt | Lte | Gte | Eq | Neq => is_num l && is_num r
+  | Add | Sub | Mul | Div | OLt | OGt | OLe | OGe | OEq | ONe => is_num l && is_num r
   | Mod | BAnd | BOr | BXor | Shl | Shr =>
       match l, r with (TInt | TLong), (TInt | TLong) => true | _, _ => false end
   | And | Or => false
@@ -265,7 +265,7 @@ Definition opcode_cell_ok (y : binop_row) : bool :=
 Definition opcode_statement : Prop := forall y, In y binop_table -> opcode_cell_ok y = true.
 
 Definition is_bool_neq (y : binop_row) : bool :=
-  binop_eqb (bo_op y) Neq && ty_eqb (bo_l y) TBool && ty_eqb (bo_r y) TBool.
+  binop_eqb (bo_op y) ONe && ty_eqb (bo_l y) TBool && ty_eqb (bo_r y) TBool.
 
 (* witness: `bool != bool` is emitted as OP_EQ_INT *)
 Theorem opcode_matches_type_refuted :
@@ -316,7 +316,7 @@ Definition emitted_statement : Prop :=
 Theorem accepted_cells_are_emitted_refuted :
   exists y, In y binop_table /\ bo_emit y = EmitAbort.
 Proof.
-  assert (H : existsb (fun y => binop_eqb (bo_op y) Lt && ty_eqb (bo_l y) TEnum
+  assert (H : existsb (fun y => binop_eqb (bo_op y) OLt && ty_eqb (bo_l y) TEnum
                                 && ty_eqb (bo_r y) TInt && is_abort (bo_emit y)) binop_table = true)
     by (vm_compute; reflexivity).
   apply existsb_exists in H. destruct H as (y & Hin & Hy).
